@@ -46,6 +46,7 @@ type FuncContract struct {
 	Opaque   bool // never inline even when small
 	CalleeEns map[string][]*Clause // `callee NAME ensures e`: an extra postcondition assumed for calls to NAME made by this function (local refinement of a library summary; listed as an assumption)
 	CalleeAsg map[string][]string  // `callee NAME assigns ghost.x, ...`
+	LitEns   []*LitClause // `literal K ensures e`: checked wherever function literal $K of this function returns (r0.. = its results)
 	Guarded  []*GuardClause // `guarded HEAP by e`: every read or write of HEAP by this function needs e (lock discipline)
 	Abstract map[string]bool // callees (unqualified names) whose postconditions are NOT used when verifying this function (keeps heavy spec functions out of its VCs; dropping assumptions is sound)
 	Sticky   bool // single-result method: once non-nil/true for a receiver, it stays so (e.g. context.Context.Err)
@@ -57,6 +58,13 @@ type FuncContract struct {
 	Sends    []*Clause // condition every value sent on a channel must satisfy (over `sent`)
 	used     bool
 	merged   bool // this block's clauses were added to another block for the same function: not verified on its own
+}
+
+// LitClause: a postcondition of a function literal (closure) written inside
+// the function under contract; K is the literal's go/ssa suffix ("1", "2", "1$1").
+type LitClause struct {
+	Lit    string
+	Clause *Clause
 }
 
 // GuardClause: heap locations matching Pat may be read or written by the
@@ -119,7 +127,7 @@ type ContractFile struct {
 
 var clauseKeywords = map[string]bool{
 	"func": true, "spec": true, "ghost": true, "lemma": true, "axiom": true, "bvlemma": true,
-	"requires": true, "ensures": true, "assumes": true, "assumes_pre": true, "guarded": true, "loop": true, "callback": true, "nopanic": true,
+	"requires": true, "ensures": true, "assumes": true, "assumes_pre": true, "guarded": true, "literal": true, "loop": true, "callback": true, "nopanic": true,
 	"assigns": true, "effects": true, "calls": true, "pure": true,
 	"trusted": true, "inline": true, "reach": true, "sends": true, "opaque": true, "sticky": true, "abstract": true, "callee": true, "crash_invariant": true, "results": true,
 }
@@ -498,6 +506,29 @@ func parseContractFile(path, pkgPath string) (*ContractFile, error) {
 					}
 				}
 			}
+		case "literal":
+			if err := needCur(); err != nil {
+				return nil, err
+			}
+			fs := strings.Fields(rest)
+			if len(fs) < 3 {
+				return nil, fmt.Errorf("%s:%d: literal K ensures expr", path, rl.line)
+			}
+			afterK := strings.TrimSpace(strings.TrimPrefix(rest, fs[0]))
+			if m := tagRe.FindStringSubmatch(afterK); m != nil {
+				for _, t := range strings.Split(m[2], ",") {
+					tags = append(tags, strings.TrimSpace(t))
+				}
+				afterK = m[1] + " " + strings.TrimSpace(afterK[len(m[0]):])
+			}
+			if !strings.HasPrefix(afterK, "ensures") {
+				return nil, fmt.Errorf("%s:%d: literal K ensures expr", path, rl.line)
+			}
+			c, err := mk("ensures", strings.TrimSpace(strings.TrimPrefix(afterK, "ensures")))
+			if err != nil {
+				return nil, err
+			}
+			cur.LitEns = append(cur.LitEns, &LitClause{Lit: strings.TrimPrefix(fs[0], "$"), Clause: c})
 		case "guarded":
 			if err := needCur(); err != nil {
 				return nil, err
